@@ -843,6 +843,15 @@ class Engine(object):
             ext = self.externals.get(base.cls + "." + attr)
             if ext is not None:
                 return [(st, ExternalMethod(ext, base, attr))]
+            if attr == "_replace" and base.cls in getattr(self, "namedtuples", {}):
+                def _replace(E, obj, args, kwargs, st2, node2):
+                    new = obj
+                    for k, v in kwargs.items():
+                        if k not in obj.fields:
+                            raise EngineError("namedtuple _replace of unknown field %s" % k)
+                        new = new.with_field(k, v)
+                    return [(st2, new, None)]
+                return [(st, ExternalMethod(_replace, base, attr))]
             raise EngineError("object of class %s has no modelled attribute %s" % (base.cls, attr))
         if isinstance(base, ExcV):
             # attributes of a repository exception = the arguments of its __init__, by name
@@ -1068,10 +1077,22 @@ class Engine(object):
                     out.append((s, _))
                     continue
                 norm = z3.If(i < 0, i + n, i)
-                val = items[n - 1]
+                its = items
+                if is_bv(idx):
+                    # a constant table indexed by a machine integer: the entries are machine integers too
+                    def _bvc(x, w=idx.size()):
+                        if isinstance(x, int) and not isinstance(x, bool):
+                            if not 0 <= x < 2 ** (w - 1):
+                                raise EngineError("table entry outside the machine-integer range")
+                            return z3.BitVecVal(x, w)
+                        if isinstance(x, tuple):
+                            return tuple(_bvc(e) for e in x)
+                        return x
+                    its = [_bvc(x) for x in items]
+                val = its[n - 1]
                 try:
                     for k in reversed(range(n - 1)):
-                        val = merge(norm == k, items[k], val)
+                        val = merge(norm == k, its[k], val)
                     out.append((s, val))
                 except EngineError:
                     for k in range(n):
@@ -2087,6 +2108,17 @@ class Engine(object):
             if r is None or len(r) != 1 or isinstance(r[0][1], Raised):
                 raise EngineError("subscript assignment form not supported (line %s)" % getattr(target, "lineno", "?"))
             s, (base, idx) = r[0]
+            if isinstance(base, ObjV):
+                m = self.find_method(base.cls, "__setitem__")
+                if m is not None:
+                    # obj[k] = v on a repository class: its __setitem__, the mutated object written back
+                    fake = ast.Call(func=ast.Attribute(value=target.value, attr="__setitem__", ctx=ast.Load()), args=[], keywords=[])
+                    ast.copy_location(fake, target)
+                    ast.copy_location(fake.func, target)
+                    rr = self.call_function(self.decorated(m[0].bind(base), s), [idx, value], {}, s, fake)
+                    if len(rr) != 1 or isinstance(rr[0][1], Raised):
+                        raise EngineError("__setitem__ that forks or raises (line %s)" % getattr(target, "lineno", "?"))
+                    return rr[0][0]
             return self.assign(target.value, self.store(s, target, base, idx, value), s, node)
         raise EngineError("assignment target %s" % type(target).__name__)
 
